@@ -460,7 +460,7 @@ func (i *Interpreter) getBackendByHash(dc *value.DirectorConfig, hash []byte) (*
 			// The member may be a director (no declaration of its own): hash its name then
 			var bh [32]byte
 			if v.Backend.Value != nil {
-				bh = sha256.Sum256([]byte(v.Backend.Value.String()))
+				bh = sha256.Sum256([]byte(backendHashSource(v.Backend.Value)))
 			} else {
 				bh = sha256.Sum256([]byte(v.Backend.String()))
 			}
@@ -483,4 +483,76 @@ DETERMINED:
 		}
 	}
 	return target, nil
+}
+
+// backendHashSource renders a backend declaration for hashing: the declaration without its comments,
+// so that a comment inside or around a backend does not change which backend a hash / client director picks.
+// (For a declaration without comments this is exactly its String().)
+func backendHashSource(decl *ast.BackendDeclaration) string {
+	c := *decl
+	c.Meta = decl.Meta.CloneWithoutComments()
+	if decl.Name != nil {
+		name := *decl.Name
+		name.Meta = decl.Name.Meta.CloneWithoutComments()
+		c.Name = &name
+	}
+	c.Properties = withoutCommentsProperties(decl.Properties)
+	return c.String()
+}
+
+func withoutCommentsProperties(props []*ast.BackendProperty) []*ast.BackendProperty {
+	out := make([]*ast.BackendProperty, len(props))
+	for i, p := range props {
+		cp := *p
+		cp.Meta = p.Meta.CloneWithoutComments()
+		if p.Key != nil {
+			key := *p.Key
+			key.Meta = p.Key.Meta.CloneWithoutComments()
+			cp.Key = &key
+		}
+		cp.Value = withoutCommentsExpression(p.Value)
+		out[i] = &cp
+	}
+	return out
+}
+
+func withoutCommentsExpression(expr ast.Expression) ast.Expression {
+	switch t := expr.(type) {
+	case *ast.BackendProbeObject:
+		c := *t
+		c.Meta = t.Meta.CloneWithoutComments()
+		c.Values = withoutCommentsProperties(t.Values)
+		return &c
+	case *ast.String:
+		c := *t
+		c.Meta = t.Meta.CloneWithoutComments()
+		return &c
+	case *ast.Ident:
+		c := *t
+		c.Meta = t.Meta.CloneWithoutComments()
+		return &c
+	case *ast.Integer:
+		c := *t
+		c.Meta = t.Meta.CloneWithoutComments()
+		return &c
+	case *ast.Float:
+		c := *t
+		c.Meta = t.Meta.CloneWithoutComments()
+		return &c
+	case *ast.Boolean:
+		c := *t
+		c.Meta = t.Meta.CloneWithoutComments()
+		return &c
+	case *ast.RTime:
+		c := *t
+		c.Meta = t.Meta.CloneWithoutComments()
+		return &c
+	case *ast.InfixExpression:
+		c := *t
+		c.Meta = t.Meta.CloneWithoutComments()
+		c.Left = withoutCommentsExpression(t.Left)
+		c.Right = withoutCommentsExpression(t.Right)
+		return &c
+	}
+	return expr
 }
